@@ -24,3 +24,28 @@ def draw(rng, maxsites=6, sigmas=(0.3, 1., 3.), maxjumps=300, hostile=False, nee
             'pre': pre, 'bE': bE, 'preT': preT, 'bET': bET, 'sigma': sigma,
             'desc': {'kind': spec['kind'], 'lattice': crys.lattice, 'basis': crys.basis, 'chem': chem, 'cutoff': cutoff,
                      'pre': pre, 'bE': bE, 'preT': preT, 'bET': bET}}
+
+
+def lattice_connected(crys, chem, jn):
+    """True iff the jump network connects every site in every cell (checked on tori whose sizes contain the factors 2,3,4,5)."""
+    import itertools
+    N = len(crys.basis[chem])
+    dim = crys.dim
+    lat = []
+    for jl in jn:
+        for (i, j), dx in jl:
+            R = np.round(np.linalg.solve(crys.lattice, dx) - crys.basis[chem][j] + crys.basis[chem][i]).astype(int)
+            lat.append((i, j, tuple(R)))
+    for L in ((12, 5) if dim == 2 else (4, 6, 5)):
+        seen = {(0,) + (0,) * dim}
+        stack = [(0,) + (0,) * dim]
+        while stack:
+            s = stack.pop()
+            for (i, j, R) in lat:
+                if i != s[0]: continue
+                t = (j,) + tuple((a + b) % L for a, b in zip(s[1:], R))
+                if t not in seen:
+                    seen.add(t)
+                    stack.append(t)
+        if len(seen) != N * L ** dim: return False
+    return True
